@@ -175,7 +175,7 @@ def rule_a(ctx):
     ctor = [c for c in ast.walk(rd.node) if isinstance(c, ast.Call) and norm(c.func) in ("darsia.OpticalImage", "darsia.Image", "darsia.ScalarImage")]
     pass_ok = len(ctor) >= 1 and all([norm(a) for a in c.args] == [AN] and [(k.arg, norm(k.value)) for k in c.keywords] == [(None, MN)] for c in ctor)
     ctx.ob(R, rd.qname, "the array and the metadata dict read from the file reach the constructor unmodified", pass_ok and not touched,
-           f"modified on the way: {touched}" if touched else str([norm(c)[:60] for c in ctor]), rd.node)
+           f"modified on the way: {touched}" if touched else str([norm(c)[:60] for c in ctor]), rd.node, evidence=bool(touched))
     im = m.func(IMR, "imread")
     am2 = AM(im)
     route = [n for n in ast.walk(im.node) if isinstance(n, ast.If) and am2.eq(n.test, "suffix == '.npz'")]
